@@ -27,13 +27,11 @@ Lemma float_token f :
 Proof. unfold float_atom. destruct (fcls f); reflexivity. Qed.
 
 (* the line half of the wire-level oracle accepts what the model observes *)
-Theorem wire_line i : wf i = true ->
-  owf_ctxs (ec_ctxs (dec_case i)) -> owf_flds (ec_fs (dec_case i)) -> rend_pre (t_rend (time_val (ec_ent (dec_case i)))) ->
-  spec_line i (model i) = true.
+Theorem wire_line i : wf i = true -> spec_line i (model i) = true.
 Proof.
-  unfold wf, spec_line, model. intros Hw Hc Hf Ht.
+  unfold wf, spec_line, model. intros Hw.
   apply andb_true_iff in Hw as [Hw We]. apply andb_true_iff in Hw as [Wc Wf'].
-  destruct (entry_valid (ec_cfg (dec_case i)) (ec_ctxs (dec_case i)) (ec_ent (dec_case i)) (ec_fs (dec_case i))
-              eq_refl eq_refl Wc Wf' We Hc Hf Ht) as (out & E & L).
+  destruct (entry_valid_wf (ec_cfg (dec_case i)) (ec_ctxs (dec_case i)) (ec_ent (dec_case i)) (ec_fs (dec_case i))
+              eq_refl eq_refl Wc Wf' We) as (out & E & L).
   rewrite E. cbn [sx_l]. rewrite L. apply jv_eqb_refl.
 Qed.
